@@ -8,8 +8,14 @@ and how `BacktestManager.run` treats a backtest that ends in an exception (in-pr
 branches: tasks collected with `.wait()` or fetched with `.get()`).
 A shape this script does not recognise is a ShapeError (treated like a broken correspondence); a recognised shape that
 copies less than today flips a flag, which breaks `C19_current_code_pinned` / `C19_failure_handling_pinned` and everything proved
-from them."""
+from them.
+The copy flags are read off exact texts (review finding F-7): the guard and the column loop of `_own_frame` are compared, up to variable
+names, with the ones known today; `_own_frame`, `_start`, `_start_with_global_data`, `_start_with_param_data` carry no decorator and are
+defined once; inside `_start` nothing but the loop binds `market`, nothing but the one `market.data = …` writes a `.data` / `._data`, and
+the shared frames `data.data` are used once; the in-process branch of `run()` holds the `for strategy in self.strategies` loop that calls
+`_start_with_param_data(self.config, self.data, strategy, self.backtest_config)`.  tools/consts_manager_selftest.py runs the variants."""
 import ast
+import re
 
 # the functions that run one backtest: a call of one of them is where a failing backtest's exception comes out
 ENTRY = ("_start_with_param_data", "_start_with_global_data", "_start")
@@ -238,6 +244,137 @@ def _pool_flags(add, bodies, funcs, ShapeError):
             "unguarded .get() (false: the first failing task re-raises inside the block, whose exit terminates the other workers)")
 
 
+_DEFS = (ast.FunctionDef, ast.AsyncFunctionDef, ast.ClassDef)
+_ID = r"[A-Za-z_]\w*"
+# names the recognised texts below rely on: a local variable of that name would change what the text means
+_RESERVED = {"copy", "deepcopy", "object", "list", "dict", "set", "isinstance", "range", "len"}
+
+
+def _stores(scope, name):
+    """every node under `scope` that binds or deletes the plain name `name` (assignment of any kind, loop / with / except / match /
+    import target, parameter of a nested def or lambda, global / nonlocal declaration); defs and classes of that name are counted by
+    `_plain_def`, not here"""
+    out = []
+    for n in ast.walk(scope):
+        if isinstance(n, ast.Name) and n.id == name and isinstance(n.ctx, (ast.Store, ast.Del)):
+            out.append(n)
+        elif isinstance(n, (ast.Global, ast.Nonlocal)) and name in n.names:
+            out.append(n)
+        elif isinstance(n, ast.ExceptHandler) and n.name == name:
+            out.append(n)
+        elif isinstance(n, ast.alias) and (n.asname or n.name.split(".")[0]) == name:
+            out.append(n)
+        elif isinstance(n, ast.arg) and n.arg == name:
+            out.append(n)
+        elif isinstance(n, (ast.MatchAs, ast.MatchStar)) and n.name == name:
+            out.append(n)
+        elif isinstance(n, ast.MatchMapping) and n.rest == name:
+            out.append(n)
+    return out
+
+
+def _plain_def(bt, name, ShapeError):
+    """the one module-level `def name` of backtest.py: no decorator (a memoising one hands the same frame to every backtest), no second
+    definition and no assignment to that name anywhere in the module"""
+    defs = [n for n in ast.walk(bt) if isinstance(n, _DEFS) and n.name == name]
+    if len(defs) != 1 or not isinstance(defs[0], ast.FunctionDef) or not any(defs[0] is n for n in bt.body):
+        raise ShapeError(f"{name}: expected exactly one module-level `def {name}` in backtest.py, found {len(defs)} definitions of that name")
+    if defs[0].decorator_list:
+        raise ShapeError(f"{name}: decorated ({', '.join(ast.unparse(d) for d in defs[0].decorator_list)}): what a call of it returns is not read off its body")
+    if _stores(bt, name):
+        raise ShapeError(f"{name}: the name is also bound by an assignment / import / parameter in backtest.py")
+    return defs[0]
+
+
+def _copy_is_the_module(bt, ShapeError):
+    """`copy` / `deepcopy` in backtest.py are what `import copy` / `from copy import deepcopy` at module level bind, nothing else"""
+    imported = {"copy": [a for st in bt.body if isinstance(st, ast.Import) for a in st.names if a.name == "copy" and a.asname is None],
+                "deepcopy": [a for st in bt.body if isinstance(st, ast.ImportFrom) and st.module == "copy" and st.level == 0
+                             for a in st.names if a.name == "deepcopy" and a.asname is None]}
+    for name, ok in imported.items():
+        if any(not any(n is a for a in ok) for n in _stores(bt, name)) or any(isinstance(n, _DEFS) and n.name == name for n in ast.walk(bt)):
+            raise ShapeError(f"backtest.py: `{name}` is bound by something else than the import from the standard library's copy module")
+
+
+def _no_docstring(body):
+    return body[1:] if body and isinstance(body[0], ast.Expr) and isinstance(getattr(body[0], "value", None), ast.Constant) \
+        and isinstance(body[0].value.value, str) else body
+
+
+def _positional_params(fn, ShapeError):
+    a = fn.args
+    if a.posonlyargs or a.vararg or a.kwonlyargs or a.kwarg or a.defaults or a.kw_defaults:
+        raise ShapeError(f"{fn.name}: parameters other than plain positional ones")
+    return [x.arg for x in a.args]
+
+
+def _unconditional_calls(stmts):
+    """the calls in the simple statements among `stmts` and in the bodies of `try` statements among them (not under if / for / while /
+    with, not in handlers / else / finally, not inside a lambda or a nested def)"""
+    out = []
+    for st in stmts:
+        if isinstance(st, ast.Try):
+            out.extend(_unconditional_calls(st.body))
+        elif isinstance(st, (ast.Expr, ast.Assign, ast.AnnAssign, ast.AugAssign, ast.Return)):
+            todo = [st]
+            while todo:
+                n = todo.pop()
+                if isinstance(n, (ast.Lambda, ast.IfExp, ast.BoolOp, ast.ListComp, ast.SetComp, ast.DictComp, ast.GeneratorExp)):
+                    continue
+                if isinstance(n, ast.Call):
+                    out.append(n)
+                todo.extend(ast.iter_child_nodes(n))
+    return out
+
+
+def _branch_runs_every_strategy(stmts, funcs, ShapeError):
+    """the statements (the body of the in-process branch of run(), or of the method of this file that is all the branch calls) contain
+    `for <s> in self.strategies:` whose body calls, unconditionally, `_start_with_param_data(self.config, self.data, <s>,
+    self.backtest_config)` (or `_start` with these arguments) — itself or through one function of this file whose parameters are bound
+    to these expressions"""
+    want = lambda s: ["self.config", "self.data", s, "self.backtest_config"]    # noqa: E731
+
+    def args_of(call):
+        if call.keywords or any(isinstance(a, ast.Starred) for a in call.args):
+            return None
+        return [ast.unparse(a) for a in call.args]
+
+    def loop_ok(loop):
+        if not (isinstance(loop.target, ast.Name) and ast.unparse(loop.iter) == "self.strategies" and not loop.orelse):
+            return False
+        s = loop.target.id
+        for call in _unconditional_calls(loop.body):
+            if _callee(call) in ("_start_with_param_data", "_start") and isinstance(call.func, ast.Name) and args_of(call) == want(s):
+                return True
+            d = _local_def(call, funcs)
+            if d is None or d.decorator_list or args_of(call) is None:
+                continue
+            try:
+                params = _positional_params(d, ShapeError)
+            except ShapeError:
+                continue
+            if isinstance(call.func, ast.Attribute):     # self.f(…): the first parameter is the object
+                params = params[1:]
+            if len(params) != len(call.args):
+                continue
+            env = dict(zip(params, args_of(call)))
+            for inner in _unconditional_calls(_no_docstring(d.body)):
+                got = args_of(inner)
+                if _callee(inner) in ("_start_with_param_data", "_start") and isinstance(inner.func, ast.Name) and got is not None \
+                        and [env.get(t, t) for t in got] == want(s) and not any(_stores(d, p) != [a for a in d.args.args if a.arg == p] for p in params):
+                    return True
+        return False
+
+    for st in stmts:
+        if isinstance(st, ast.For) and loop_ok(st):
+            return True
+        if isinstance(st, ast.Expr) and isinstance(st.value, ast.Call) and not st.value.args and not st.value.keywords:
+            d = _local_def(st.value, funcs)
+            if d is not None and not d.decorator_list and any(isinstance(x, ast.For) and loop_ok(x) for x in _no_docstring(d.body)):
+                return True
+    return False
+
+
 def _is_deepcopy_of(call, pred):
     """call is `copy.deepcopy(x)` / `deepcopy(x)` with pred(x)"""
     return isinstance(call, ast.Call) and getattr(call.func, "attr", getattr(call.func, "id", "")) == "deepcopy" \
@@ -250,7 +387,23 @@ def _is_config_markets(n):
 
 def _copy_flags(add, parse, find_func, const_int, rat_of, ShapeError, module_assign):
     bt = parse("demeter/core/backtest.py")
-    start = find_func(bt, "_start")
+    funcs = _same_file_functions(bt)
+    # `_start` and the two functions that hand a backtest to it: plain functions (no decorator, defined once), the two wrappers nothing
+    # but `return _start(…)` with their own parameters (the forked one: the module's `global_data` for the data)
+    start = _plain_def(bt, "_start", ShapeError)
+    start_params = _positional_params(start, ShapeError)
+    if len(start_params) != 4:
+        raise ShapeError("_start: expected the four parameters (config, data, strategy, bk_config)")
+    if start_params[0] != "config" or start_params[1] != "data" or "market" in start_params:
+        raise ShapeError("_start: the first two parameters are not called `config`, `data` (the texts recognised below use these names)")
+    for wname, wargs in (("_start_with_param_data", lambda p: p if len(p) == 4 else None),
+                         ("_start_with_global_data", lambda p: [p[0], "global_data", p[1], p[2]] if len(p) == 3 and "global_data" not in p else None)):
+        w = _plain_def(bt, wname, ShapeError)
+        wp = _positional_params(w, ShapeError)
+        body = _no_docstring(w.body)
+        if wargs(wp) is None or len(body) != 1 or not isinstance(body[0], ast.Return) or body[0].value is None \
+                or ast.unparse(body[0].value) != f"_start({', '.join(wargs(wp))})":
+            raise ShapeError(f"{wname}: not of the shape `return _start(<its parameters>)`")
 
     # ---- (1) the configured markets: 0 = attached themselves, 1 = copy.deepcopy(market) one by one (objects that several
     #      markets refer to are duplicated per market: a SqueethMarket loses its UniLpMarket), 2 = copy.deepcopy(config.markets)
@@ -263,10 +416,14 @@ def _copy_flags(add, parse, find_func, const_int, rat_of, ShapeError, module_ass
     if len(loops) != 1:
         raise ShapeError(f"_start: expected one `for market in …` loop, found {len(loops)}")
     loop = loops[0]
+    if not any(loop is st for st in start.body) or loop.orelse:
+        raise ShapeError("_start: the `for market in …` loop is not a statement of _start's own body (or has an `else`)")
     adds = [k for k, st in enumerate(loop.body) if isinstance(st, ast.Expr) and isinstance(st.value, ast.Call)
             and getattr(st.value.func, "attr", "") == "add_market" and len(st.value.args) == 1 and getattr(st.value.args[0], "id", "") == "market"]
     if len(adds) != 1:
         raise ShapeError("_start: expected exactly one broker.add_market(market) in the market loop")
+    if sum(isinstance(n, ast.Attribute) and n.attr == "add_market" or isinstance(n, ast.Name) and n.id == "add_market" for n in ast.walk(start)) != 1:
+        raise ShapeError("_start: add_market is mentioned a second time, besides the one broker.add_market(market) of the market loop")
     if _is_deepcopy_of(loop.iter, _is_config_markets) or (isinstance(loop.iter, ast.Name) and loop.iter.id in whole_names):
         mode = 2
     elif _is_config_markets(loop.iter):
@@ -275,71 +432,126 @@ def _copy_flags(add, parse, find_func, const_int, rat_of, ShapeError, module_ass
         mode = 1 if each and each[0] < adds[0] else 0
     else:
         raise ShapeError("_start: the market loop iterates over something else than config.markets or a deep copy of it")
+    # `market` is bound by the loop alone (mode 1: and by the one `market = copy.deepcopy(market)` that makes it mode 1): any other
+    # binding (`market = config.markets[0]` before add_market, a second loop / with / walrus / del …) attaches or fills another object
+    # than the one the mode speaks of.  The same for the name the whole copy is kept under (mode 2) and for `config`, `data`.
+    bound_ok = [loop.target]
+    if mode == 1:
+        st = loop.body[each[0]]
+        if len(each) != 1 or len(st.targets) != 1:
+            raise ShapeError("_start: more than one `market = copy.deepcopy(market)` in the market loop")
+        bound_ok.append(st.targets[0])
+    if any(not any(n is ok for ok in bound_ok) for n in _stores(start, "market")):
+        raise ShapeError("_start: `market` is bound a second time (besides the loop" + (" and its copy.deepcopy(market)" if mode == 1 else "") + ")")
+    if isinstance(loop.iter, ast.Name) and len(_stores(start, loop.iter.id)) != 1:
+        raise ShapeError(f"_start: `{loop.iter.id}` (the deep copy of config.markets the loop runs over) is bound more than once")
+    for pname in ("config", "data"):
+        if len(_stores(start, pname)) != 1:
+            raise ShapeError(f"_start: the parameter `{pname}` is bound again inside _start")
+    _copy_is_the_module(bt, ShapeError)
     add("managerMarketsCopy", "Nat", str(mode),
         "_start attaches: 0 the configured market objects themselves, 1 copy.deepcopy(market) per market, 2 the markets of copy.deepcopy(config.markets)")
 
     # ---- (2) dispatch of run(): in-process iff len(strategies) == 1 or threads == 1
+    #      (the test exactly `len(self.strategies) == 1 or self.threads == 1`, once), and that branch is the in-process one: its body
+    #      (or the method of this file it consists of) has the `for strategy in self.strategies:` loop that calls
+    #      `_start_with_param_data(self.config, self.data, strategy, self.backtest_config)` unconditionally, the other branch calls none
     run = find_func(bt, "run", cls="BacktestManager")
-    seq_shape = False
+    if run.decorator_list:
+        raise ShapeError("BacktestManager.run: decorated")
+    branches = []
     for n in ast.walk(run):
         if isinstance(n, ast.If) and isinstance(n.test, ast.BoolOp) and isinstance(n.test.op, ast.Or) and len(n.test.values) == 2:
             a, b = n.test.values
 
             def is_eq_one(c, what):
-                return isinstance(c, ast.Compare) and isinstance(c.ops[0], ast.Eq) and const_int(c.comparators[0]) == 1 and what in ast.dump(c.left)
-            if is_eq_one(a, "strategies") and is_eq_one(b, "threads"):
-                seq_shape = True
+                return isinstance(c, ast.Compare) and len(c.ops) == 1 and isinstance(c.ops[0], ast.Eq) and const_int(c.comparators[0]) == 1 \
+                    and ast.unparse(c.left) == what
+            if is_eq_one(a, "len(self.strategies)") and is_eq_one(b, "self.threads"):
+                branches.append(n)
+    seq_shape = len(branches) == 1 and _branch_runs_every_strategy(branches[0].body, funcs, ShapeError) and bool(branches[0].orelse) \
+        and not any(isinstance(x, ast.Call) and _callee(x) in ENTRY for st in branches[0].orelse for x in ast.walk(st))
     add("managerSeqIfOneStrategyOrOneThread", "Bool", "true" if seq_shape else "false",
         "BacktestManager.run takes the in-process path iff len(strategies) == 1 or threads == 1")
 
-    # ---- (3) the data frame handed to the market: `market.data = <expr>`; <expr> is `shared.copy(…)` or a call of a helper of this
-    #      module whose result is such a copy of its argument; (4) and does that path deep-copy the Python objects inside cells
-    #      (`frame[column] = frame[column].map(copy.deepcopy)`), which no DataFrame copy duplicates
+    # ---- (3) the data frame handed to the market: `market.data = <expr>`, one statement of the market loop's body and the only write to
+    #      `market.data` / `market._data` in _start; <expr> is `data.data[market.market_info]`, `….copy(…)` of it, or a call of a helper of
+    #      this module whose result is such a copy of its argument; (4) and does that helper deep-copy the Python objects inside cells,
+    #      which no DataFrame copy duplicates: exactly
+    #          for position in range(frame.shape[1]):
+    #              cells = frame.iloc[:, position]
+    #              if cells.dtype == object and cells.map(lambda cell: isinstance(cell, (list, dict, set))).any():
+    #                  frame.isetitem(position, cells.map(copy.deepcopy))
+    #      (up to the names of the variables); a helper that mentions deepcopy in any other arrangement is a ShapeError
+    SHARED = "data.data[market.market_info]"
     assigns = [n for n in ast.walk(start) if isinstance(n, ast.Assign) and isinstance(n.targets[0], ast.Attribute)
                and n.targets[0].attr == "data" and getattr(n.targets[0].value, "id", "") == "market"]
     if len(assigns) != 1:
         raise ShapeError("_start: expected exactly one `market.data = …`")
+    if len(assigns[0].targets) != 1 or not any(assigns[0] is st for st in loop.body):
+        raise ShapeError("_start: `market.data = …` is not a plain statement of the market loop's body")
     val = assigns[0].value
+    for n in ast.walk(start):
+        if isinstance(n, ast.Attribute) and n.attr in ("data", "_data") and isinstance(n.ctx, (ast.Store, ast.Del)) and n is not assigns[0].targets[0]:
+            raise ShapeError(f"_start: a second write to a market's frame: `{ast.unparse(n)}` is assigned / deleted besides the one `market.data = …`")
+        if isinstance(n, ast.Call) and _callee(n) in ("setattr", "delattr", "__setattr__", "__delattr__", "__setitem__", "update", "vars") \
+                and any(isinstance(x, ast.Name) and x.id == "market" for x in ast.walk(n)):
+            raise ShapeError(f"_start: `{ast.unparse(n)[:80]}` sets attributes of the market by name")
+        if isinstance(n, ast.Attribute) and n.attr == "__dict__":
+            raise ShapeError("_start: an object's __dict__ is used")
+    if sum(isinstance(n, ast.Attribute) and n.attr == "data" and getattr(n.value, "id", "") == "data" for n in ast.walk(start)) != 1:
+        raise ShapeError("_start: the shared frames `data.data` are used a second time, besides the one `market.data = …`")
 
     def is_shared_frame(n):   # data.data[market.market_info]
-        return isinstance(n, ast.Subscript) and isinstance(n.value, ast.Attribute) and n.value.attr == "data" and getattr(n.value.value, "id", "") == "data"
+        return isinstance(n, ast.Subscript) and ast.unparse(n) == SHARED
 
-    def copies_cells(fn, frame_name):
-        """the cells are replaced by deep copies of themselves, unconditionally for every cell that holds a container:
-        `<frame>[c] = <frame>[c].map(copy.deepcopy)` or `<frame>.isetitem(pos, <cells>.map(copy.deepcopy))` with
-        `<cells> = <frame>.iloc[:, pos]` inside fn"""
-        def is_deep_map(call, ok_source):
-            return isinstance(call, ast.Call) and getattr(call.func, "attr", "") in ("map", "apply") and len(call.args) == 1 \
-                and not call.keywords and getattr(call.args[0], "attr", getattr(call.args[0], "id", "")) == "deepcopy" and ok_source(call.func.value)
-        from_frame = {n.targets[0].id for n in ast.walk(fn) if isinstance(n, ast.Assign) and isinstance(n.targets[0], ast.Name)
-                      and isinstance(n.value, ast.Subscript) and frame_name in {getattr(x, "id", "") for x in ast.walk(n.value.value)}}
-
-        def src(v):
-            return (isinstance(v, ast.Subscript) and getattr(v.value, "id", "") == frame_name) or getattr(v, "id", "") in from_frame
-        for n in ast.walk(fn):
-            if isinstance(n, ast.Assign) and isinstance(n.targets[0], ast.Subscript) and getattr(n.targets[0].value, "id", "") == frame_name \
-                    and is_deep_map(n.value, src):
-                return True
-            if isinstance(n, ast.Call) and getattr(n.func, "attr", "") == "isetitem" and getattr(n.func.value, "id", "") == frame_name \
-                    and len(n.args) == 2 and is_deep_map(n.args[1], src):
-                return True
-        return False
+    def copies_cells(fn, frame_name, param):
+        """the helper's statements are exactly `<frame> = <param>.copy(…)`, the loop above, `return <frame>`"""
+        if not any(isinstance(n, ast.Name) and n.id == "deepcopy" or isinstance(n, ast.Attribute) and n.attr == "deepcopy" for n in ast.walk(fn)) \
+                and not any(isinstance(n, ast.Call) and getattr(n.func, "attr", "") in ("isetitem", "__setitem__") for n in ast.walk(fn)) \
+                and not any(isinstance(n, ast.Subscript) and isinstance(n.ctx, ast.Store) for n in ast.walk(fn)):
+            return False          # nothing is written back into the frame, no deepcopy: the cells are shared
+        body = _no_docstring(fn.body)
+        f = re.escape(frame_name)
+        pat = (rf"for (?P<p>{_ID}) in range\({f}\.shape\[1\]\):\n"
+               rf"    (?P<c>{_ID}) = {f}\.iloc\[:, (?P=p)\]\n"
+               rf"    if (?P=c)\.dtype == object and (?P=c)\.map\(lambda (?P<a>{_ID}): isinstance\((?P=a), \(list, dict, set\)\)\)\.any\(\):\n"
+               rf"        {f}\.isetitem\((?P=p), (?P=c)\.map\((?:copy\.)?deepcopy\)\)")
+        m = re.fullmatch(pat, ast.unparse(body[1])) if len(body) == 3 and isinstance(body[1], ast.For) else None
+        if m is None:
+            raise ShapeError(f"{fn.name}: writes into the frame / mentions deepcopy, but is not exactly `{frame_name} = {param}.copy(…)`, the "
+                             f"recognised loop (`for position in range({frame_name}.shape[1]): cells = …; if cells.dtype == object and "
+                             "cells.map(lambda cell: isinstance(cell, (list, dict, set))).any(): frame.isetitem(position, cells.map(copy.deepcopy))`), "
+                             f"`return {frame_name}`")
+        names = [frame_name, param, m["p"], m["c"], m["a"]]
+        if len(set(names)) != len(names) or set(names) & _RESERVED:
+            raise ShapeError(f"{fn.name}: the variables of the recognised loop are not five different names / shadow a builtin: {names}")
+        return True
 
     view = cells = False
     if is_shared_frame(val):
         view = False
     elif isinstance(val, ast.Call) and getattr(val.func, "attr", "") == "copy" and is_shared_frame(val.func.value):
         view = True
-    elif isinstance(val, ast.Call) and isinstance(val.func, ast.Name) and len(val.args) == 1 and is_shared_frame(val.args[0]):
-        helper = find_func(bt, val.func.id)
-        param = helper.args.args[0].arg
+    elif isinstance(val, ast.Call) and isinstance(val.func, ast.Name) and len(val.args) == 1 and not val.keywords and is_shared_frame(val.args[0]):
+        helper = _plain_def(bt, val.func.id, ShapeError)
+        params = _positional_params(helper, ShapeError)
+        if len(params) != 1:
+            raise ShapeError(f"{val.func.id}: expected one parameter (the shared frame)")
+        param = params[0]
         # frame = <param>.copy(…) … return frame
         made = [n for n in helper.body if isinstance(n, ast.Assign) and isinstance(n.targets[0], ast.Name) and isinstance(n.value, ast.Call)
                 and getattr(n.value.func, "attr", "") == "copy" and getattr(n.value.func.value, "id", "") == param]
         rets = [n for n in ast.walk(helper) if isinstance(n, ast.Return)]
+        if len(_stores(helper, param)) != 1:
+            raise ShapeError(f"{val.func.id}: the parameter `{param}` is bound again")
         if len(made) == 1 and len(rets) == 1 and getattr(rets[0].value, "id", "") == made[0].targets[0].id:
+            frame_name = made[0].targets[0].id
+            body = _no_docstring(helper.body)
+            if len(made[0].targets) != 1 or made[0] is not body[0] or rets[0] is not body[-1] or len(_stores(helper, frame_name)) != 1:
+                raise ShapeError(f"{val.func.id}: `{frame_name}` is bound a second time, or the copy / the return are not the first / last statement")
             view = True
-            cells = copies_cells(helper, made[0].targets[0].id)
+            cells = copies_cells(helper, frame_name, param)
         elif len(rets) == 1 and getattr(rets[0].value, "id", "") == param:
             view = False
         else:
@@ -387,6 +599,36 @@ def _copy_flags(add, parse, find_func, const_int, rat_of, ShapeError, module_ass
     pc = 0 if (top and top[-1] < keeps[0]) else (1 if anywhere else 2)
     add("actuatorPriceCopy", "Nat", str(pc),
         "Actuator.set_price keeps a new frame (prices.map(…)): 0 always, 1 only under a condition, 2 never (adopts the caller's frame)")
+
+    # ---- (7) process-wide state: does the Snapshot class itself hold an object every Snapshot of the process shares?
+    add("snapshotHoldsNoSharedObject", "Bool", "true" if snapshot_fields_private(parse("demeter/broker/_typing.py"), ShapeError) else "false",
+        "dataclass Snapshot (what Actuator.__get_snapshot fills on every bar): every field default is absent, a constant or field(default_factory=…) "
+        "(false: a class-level object such as `market_status = MarketDict()` is shared by every Snapshot of the process and outlives a backtest)")
+
+
+def snapshot_fields_private(tree, ShapeError):
+    """every statement of `class Snapshot` is an annotated field whose default is absent, an immutable constant, or `field(default_factory=…)`
+    without `default=`; anything else evaluated once in the class body (a call, a display, a name) is an object shared by all instances"""
+    classes = [n for n in ast.walk(tree) if isinstance(n, ast.ClassDef) and n.name == "Snapshot"]
+    if len(classes) != 1:
+        raise ShapeError("broker/_typing.py: exactly one class Snapshot expected")
+    cls = classes[0]
+    if [ast.unparse(d) for d in cls.decorator_list] != ["dataclass"]:
+        raise ShapeError("class Snapshot: expected to be a plain @dataclass")
+    private = True
+    for st in cls.body:
+        if isinstance(st, ast.Expr) and isinstance(st.value, ast.Constant) and isinstance(st.value.value, str):
+            continue
+        if not isinstance(st, ast.AnnAssign) or not isinstance(st.target, ast.Name):
+            raise ShapeError("class Snapshot: statement that is not an annotated field: " + ast.unparse(st)[:80])
+        v = st.value
+        if v is None or (isinstance(v, ast.Constant) and not isinstance(v.value, (bytes,)) ):
+            continue
+        if isinstance(v, ast.Call) and ast.unparse(v.func) in ("field", "dataclasses.field") and not v.args \
+                and [k.arg for k in v.keywords if k.arg in ("default", "default_factory")] == ["default_factory"]:
+            continue
+        private = False
+    return private
 
 
 def register(add, parse, find_func, const_int, rat_of, ShapeError, module_assign):
